@@ -342,6 +342,10 @@ def l2_world(variant):
     add(W.exons(1000, [0, 1, 3]), chrom="chr2", strand="-")      # FSM T5
     add([[1001, 1200], [1601, 1750]], chrom="chr2", strand="-", polya=False)   # ambiguous T4/T5
     if variant >= 1:
+        # a gene and a transcript whose ids start with an underscore (the statistic lines of the tables start with two)
+        w["genes"].append(W.locus_gene("_GU", "chr2", "+", 5000, {"_TU1": [0, 1, 2]}))
+        syn.plant_for_transcripts(w)
+        add(W.exons(5000, [0, 1, 2]), chrom="chr2", count=3)
         reads.append({"name": "unm1", "unmapped": True})
         reads.append({"name": "unm2", "unmapped": True})
         add([[1001, 1200], [1601, 1800]], polya=False, mapq=0)     # low MAPQ consistent
